@@ -11,7 +11,7 @@ import os
 import random
 import time
 
-from .. import runner
+from .. import runner, sanit
 from ..common import jval, jnum, jstr, outcome, strict_json, panic_sig
 
 PROP = "C04"
@@ -373,6 +373,11 @@ def run(tier, seed, t0):
     for a in accs:
         acc.merge(a)
     acc.n["std_functions"] = accs[0].n.get("std_functions", 0)
+    # memory monitors: a sample of the jobs that just ran to a value / error on `rel` is replayed under
+    # AddressSanitizer, valgrind memcheck and Miri (a memory error is the crash the property excludes)
+    sanit.run_pass(acc, PROP, tier, seed,
+                   quick={"asan": 480, "memcheck": 96},
+                   thorough={"asan": 2400, "memcheck": 640, "miri": 192})
     return runner.finish(
         PROP, tier, seed, "exploration", acc, t0,
         rule="(c) every function listed by std.objectFieldsAll(std) at run time x boundary argument "
@@ -380,7 +385,8 @@ def run(tier, seed, t0):
              "arity); (a) random bytes / token soup / mutated valid programs as source; (d) 7 recursion "
              "shapes x frame limits {20,200,512,5000} below and above the limit; (e) self-dependent "
              "values; (g) syntactic nesting sweep; (f) sentinel evaluations on the same thread after "
-             "errors; on rel and chk builds. distinct_nontrivial = distinct sources that ran to a value "
+             "errors; on rel and chk builds; (h) a sample of those jobs replayed under AddressSanitizer, "
+             "valgrind memcheck and (thorough) Miri. distinct_nontrivial = distinct sources that ran to a value "
              "or a Jsonnet error" % len(POOL),
         assumptions=["allocation-failure aborts under RLIMIT_AS=8GiB are classed `resource`",
                      "watchdog expiry (8 s per std/fuzz job, 60 s for recursion jobs) is inconclusive, never a violation"],
